@@ -1,7 +1,12 @@
 /- Driver ops for C05 (non-negative least-squares reconstruction).  Exact `Rat` arithmetic throughout;
-   the linear solver parameter of the model is instantiated with `Model.checkedSolve`. -/
+   the linear solver parameter of the model is instantiated with `Model.checkedSolve`.
+   The Cholesky bookkeeping ops (`c05.cholupdate|cholinsertlast|choldelete|cho_solve|cholesky|chol_seq|
+   fnnls_chol`, Model/Cholesky.lean) run either in `Float` with `Float.sqrt` (`"num":"float"`, the default)
+   or in exact `Rat` with the exact root of rational squares (`"num":"rat"`; an irrational root is reported
+   as `{"err":"irrational"}` after an exact check of the result). -/
 import Driver.Loop
 import Model.NNLS
+import Model.Cholesky
 
 open Lean Model
 
@@ -81,9 +86,191 @@ def mappedDataOp : Op := fun j => do
   let imgs := Impl.mappedDataDict Bs s
   pure (obj [("dict", listToJson ratsToJson imgs), ("total", ratsToJson (Impl.mappedData m imgs))])
 
+/-! ### Cholesky bookkeeping (Model/Cholesky.lean) -/
+
+/-- number I/O for the two instantiations -/
+structure NumIO (α : Type) where
+  get : Json → Except String α
+  put : α → Json
+
+def floatIO : NumIO Float := ⟨getFloat, floatToJson⟩
+def ratIO : NumIO Rat := ⟨getRat, ratToJson⟩
+
+def natSqrt (n : Nat) : Nat := Id.run do
+  if n < 2 then return n
+  let mut x := 2 ^ (n.log2 / 2 + 1)
+  for _ in [0:4 * n.log2 + 8] do
+    let y := (x + n / x) / 2
+    if y < x then x := y else break
+  return x
+
+/-- exact root of a rational square; `-1` otherwise (the ops check their result exactly and report
+    `irrational`) -/
+def ratSqrt (x : Rat) : Rat :=
+  if x < 0 then -1
+  else
+    let a := natSqrt x.num.toNat
+    let b := natSqrt x.den
+    if a * a == x.num.toNat && b * b == x.den then mkRat a b else -1
+
+section Generic
+variable {α : Type} [Add α] [Sub α] [Mul α] [Div α] [OfNat α 0] [LT α] [DecidableLT α]
+
+def getMat (io : NumIO α) (j : Json) : Except String (List (List α)) := getList (getList io.get) j
+def putMat (io : NumIO α) (m : List (List α)) : Json := listToJson (listToJson io.put) m
+def putVec (io : NumIO α) (v : List α) : Json := listToJson io.put v
+
+/-- `UᵀU` as an array -/
+def gramMat (U : List (List α)) : List (List α) :=
+  (List.range U.length).map fun i => (List.range U.length).map fun j => Spec.gram U i j
+
+/-- one recorded stage of `chol_seq` -/
+def stageJson (io : NumIO α) (U : List (List α)) (P : List Nat) (x : List α) : Json :=
+  obj [("U", putMat io U), ("P", natsToJson P), ("x", putVec io x)]
+
+/-- the calls `fnnls_cholesky` makes on its factor, in sequence: `inserts` (one `cholinsertlast(U,
+    ZTZ[i][P_inorder])` each, from the empty factor), then one `choldeleteindexes(U, dels)` +
+    `np.delete(P_inorder, dels)` per entry of `deletes`; after every step `cho_solve((U, False), ZTx[P_inorder])`.
+    `check` validates a stage exactly (Rat mode). -/
+def cholSeq (io : NumIO α) (sqrt : α → α) (check : List (List α) → List Nat → Bool)
+    (A : List (List α)) (b : List α) (inserts : List Nat) (deletes : List (List Nat)) :
+    Except String (List Json) := do
+  let mut U : List (List α) := []
+  let mut P : List Nat := []
+  let mut out : List Json := []
+  for i in inserts do
+    let P' := P ++ [i]
+    match Impl.cholinsertlast sqrt U (gather (A.getD i []) P') with
+    | none => throw "domain"
+    | some S =>
+      U := S
+      P := P'
+      if !(check U P) then throw "irrational"
+      out := out ++ [stageJson io U P (Impl.choSolve U (gather b P))]
+  for dels in deletes do
+    U := Impl.choldeleteindexes sqrt U dels
+    P := Impl.npDelete P dels
+    if !(check U P) then throw "irrational"
+    out := out ++ [stageJson io U P (Impl.choSolve U (gather b P))]
+  pure out
+
+end Generic
+
+def ratFactorOK (A : List (List Rat)) (U : List (List Rat)) (P : List Nat) : Bool :=
+  gramMat U == subMat A P && (List.range U.length).all fun i => decide (0 < mget U i i)
+
+def isRat (j : Json) : Bool :=
+  match fieldD j "num" (Json.str "float") with
+  | .str "rat" => true
+  | _ => false
+
+/-- `{"op":"c05.cholupdate","U":[[..]],"x":[..],"num":"float"|"rat"}` → `_cholupdate(U, x)` -/
+def cholupdateOp : Op := fun j => do
+  if isRat j then
+    let U ← getMat ratIO (← field j "U")
+    let x ← getRats (← field j "x")
+    let U' := Impl.cholupdate ratSqrt U x
+    let want := (List.range U.length).map fun i => (List.range U.length).map fun k =>
+      Spec.gram U i k + vget x i * vget x k
+    if gramMat U' != want then throw "irrational"
+    pure (putMat ratIO U')
+  else
+    let U ← getMat floatIO (← field j "U")
+    let x ← getFloats (← field j "x")
+    pure (putMat floatIO (Impl.cholupdate Float.sqrt U x))
+
+/-- `cholinsertlast(U, x)`; `{"err":"domain"}` = `math.sqrt` domain error -/
+def cholinsertlastOp : Op := fun j => do
+  if isRat j then
+    let U ← getMat ratIO (← field j "U")
+    let x ← getRats (← field j "x")
+    match Impl.cholinsertlast ratSqrt U x with
+    | none => throw "domain"
+    | some S =>
+      let n := U.length
+      let S12 := Impl.solveUT U (x.take n)
+      if mget S n n * mget S n n != vget x n - dot S12 S12 || mget S n n < 0 then throw "irrational"
+      pure (putMat ratIO S)
+  else
+    let U ← getMat floatIO (← field j "U")
+    let x ← getFloats (← field j "x")
+    match Impl.cholinsertlast Float.sqrt U x with
+    | none => throw "domain"
+    | some S => pure (putMat floatIO S)
+
+/-- `choldeleteindexes(U, indexes)` -/
+def choldeleteOp : Op := fun j => do
+  let dels ← getNats (← field j "indexes")
+  if isRat j then
+    let U ← getMat ratIO (← field j "U")
+    let U' := Impl.choldeleteindexes ratSqrt U dels
+    let keep := Impl.npDelete (List.range U.length) dels
+    let want := keep.map fun i => keep.map fun k => Spec.gram U i k
+    if gramMat U' != want then throw "irrational"
+    pure (putMat ratIO U')
+  else
+    let U ← getMat floatIO (← field j "U")
+    pure (putMat floatIO (Impl.choldeleteindexes Float.sqrt U dels))
+
+/-- `scipy.linalg.cho_solve((U, False), b)` -/
+def choSolveOp : Op := fun j => do
+  if isRat j then
+    let U ← getMat ratIO (← field j "U")
+    let b ← getRats (← field j "b")
+    pure (ratsToJson (Impl.choSolve U b))
+  else
+    let U ← getMat floatIO (← field j "U")
+    let b ← getFloats (← field j "b")
+    pure (floatsToJson (Impl.choSolve U b))
+
+/-- `scipy.linalg.cholesky(A)` (upper factor) as the bordering recursion `Impl.cholFactor` -/
+def choleskyOp : Op := fun j => do
+  if isRat j then
+    let A ← getMat ratIO (← field j "A")
+    match Impl.cholFactor ratSqrt A with
+    | none => throw "domain"
+    | some U =>
+      if !(ratFactorOK A U (List.range A.length)) then throw "irrational"
+      pure (putMat ratIO U)
+  else
+    let A ← getMat floatIO (← field j "A")
+    match Impl.cholFactor Float.sqrt A with
+    | none => throw "domain"
+    | some U => pure (putMat floatIO U)
+
+/-- the insert / delete / solve sequence of `fnnls_cholesky`, see `cholSeq` -/
+def cholSeqOp : Op := fun j => do
+  let inserts ← getNats (← field j "inserts")
+  let deletes ← getList getNats (fieldD j "deletes" (Json.arr #[]))
+  if isRat j then
+    let A ← getMat ratIO (← field j "A")
+    let b ← getRats (← field j "b")
+    pure (Json.arr (← cholSeq ratIO ratSqrt (ratFactorOK A) A b inserts deletes).toArray)
+  else
+    let A ← getMat floatIO (← field j "A")
+    let b ← getFloats (← field j "b")
+    pure (Json.arr (← cholSeq floatIO Float.sqrt (fun _ _ => true) A b inserts deletes).toArray)
+
+/-- `fnnls_cholesky` with its OWN passive-set solves (`Impl.cholSolve`, exact `Rat`): only meaningful when
+    every root met is rational (else the solve reports `singular`) -/
+def fnnlsCholOp : Op := fun j => do
+  let A ← getRatMat (← field j "A")
+  let b ← getRats (← field j "b")
+  let tol ← getRat (← field j "tol")
+  let maxIter ← getNat (fieldD j "max_iter" (natToJson 10000))
+  let p ← getPInit j
+  match Impl.fnnls (Impl.cholSolve ratSqrt) A b tol maxIter p with
+  | .err e => throw (errName e)
+  | .ok d ex lc lc2 =>
+    pure (obj [("d", ratsToJson d), ("exit", Json.str (exitName ex)), ("loop_count", natToJson lc),
+      ("loop_count2", natToJson lc2), ("kkt", Json.bool (Spec.isKKTb A b d tol)),
+      ("kkt0", Json.bool (Spec.isKKTb A b d 0))])
+
 def ops : List (String × Op) :=
   [("c05.solve", solveOp), ("c05.fnnls", fnnlsOp), ("c05.reconstruction", reconstructionOp),
-   ("c05.mapped_data", mappedDataOp)]
+   ("c05.mapped_data", mappedDataOp), ("c05.cholupdate", cholupdateOp),
+   ("c05.cholinsertlast", cholinsertlastOp), ("c05.choldelete", choldeleteOp), ("c05.cho_solve", choSolveOp),
+   ("c05.cholesky", choleskyOp), ("c05.chol_seq", cholSeqOp), ("c05.fnnls_chol", fnnlsCholOp)]
 
 end Driver.C05
 
